@@ -456,5 +456,100 @@ def toAccessH (sep : Nat) (p : Path) : List Name :=
     | [] => []
     | x :: r => (sTo ++ x) :: r.map sDigit
 
+/-! ### hierarchical machines: `get_transitions` -/
+
+/-- the transition tables of a hierarchical machine: per scope, event ↦ (source, dest) of its
+transitions, names relative to the scope (`none` = internal transition) -/
+structure HT where
+  states : List Path := []
+  tables : List (Path × List (Name × List (Path × Option Path))) := []
+  deriving Repr, Inhabited
+
+def HT.table (h : HT) (pre : Path) : List (Name × List (Path × Option Path)) := (kget pre h.tables).getD []
+
+/-- `self.states` in the scope `pre`: the names of its children, in order -/
+def HT.children (h : HT) (pre : Path) : List Name :=
+  h.states.filterMap fun p => if p ≠ [] ∧ p.dropLast = pre then p.getLast? else none
+
+/-- a found transition: the scope it is declared in, its event, source and destination -/
+structure FoundT where
+  scope : Path
+  event : Name
+  source : Path
+  dest : Option Path
+  deriving DecidableEq, Repr, Inhabited
+
+/-- `Machine.get_transitions(trigger, source, dest)` inside the scope `pre` (joined names compared as
+strings, i.e. as relative paths; `[]` = `"*"`) -/
+def flatT (h : HT) (pre : Path) (trigger : Option Name) (src dst : Path) : List FoundT :=
+  let evs := match trigger with
+    | some e => (match kget e (h.table pre) with | some ts => [(e, ts)] | none => [])
+    | none => h.table pre
+  (evs.flatMap fun ev => ev.2.map fun t => ({ scope := pre, event := ev.1, source := t.1, dest := t.2 } : FoundT)).filter fun f =>
+    (src = [] || f.source == src) && (dst = [] || f.dest == some dst)
+
+/-- `HierarchicalMachine.get_nested_transitions(trigger, src_path, dest_path)` called in the scope `pre`
+(the first argument bounds the depth of the recursion; the tree depth suffices) -/
+def nestedT (h : HT) : Nat → Path → Option Name → Path → Path → List FoundT
+  | 0, _, _, _, _ => []
+  | f + 1, pre, trig, src, dst =>
+    match src, dst with
+    | s0 :: sr, d0 :: dr =>
+      flatT h pre trig (s0 :: sr) (d0 :: dr) ++
+        (if sr ≠ [] ∧ dr ≠ [] then nestedT h f (pre ++ [s0]) trig sr dr else [])
+    | s0 :: sr, [] =>
+      flatT h pre trig (s0 :: sr) [] ++ (if sr ≠ [] then nestedT h f (pre ++ [s0]) trig sr [] else [])
+    | [], d0 :: dr =>
+      flatT h pre trig [] (d0 :: dr) ++
+        (if dr ≠ [] then (h.children pre).flatMap fun x => nestedT h f (pre ++ [x]) trig [] dr else [])
+    | [], [] =>
+      flatT h pre trig [] [] ++ (h.children pre).flatMap fun x => nestedT h f (pre ++ [x]) trig [] []
+
+/-- `HierarchicalMachine.get_transitions(trigger, source, dest)` (`delegate=False`) -/
+def getTransitionsH (h : HT) (trigger : Option Name) (src dst : Path) : List FoundT :=
+  nestedT h (h.states.length + 1) [] trigger src dst
+
+/-- what the selectors mean: global names -/
+def FoundT.matchesH (f : FoundT) (trigger : Option Name) (src dst : Path) : Bool :=
+  (match trigger with | some e => f.event == e | none => true) &&
+  (src = [] || f.scope ++ f.source == src) &&
+  (dst = [] || (match f.dest with | some d => f.scope ++ d == dst | none => false))
+
+/-! ### hierarchical machines with a custom separator: binding of the FunctionWrapper helpers -/
+
+/-- what `getattr(model, 'is_<top>')` / `'to_<top>'` is -/
+inductive TopAttr
+  | missing | user | userNone | wrapper
+  deriving DecidableEq, Repr, Inhabited
+
+inductive WErr
+  | attributeError | assertionError
+  deriving DecidableEq, Repr, Inhabited
+
+/-- one binding step: `isStep` = `_add_model_to_state` (custom separator branch), else the `to_` branch of
+`_add_trigger_to_model`; `restEmpty` = the path below the top-level name is empty -/
+structure WStep where
+  name : Name
+  isStep : Bool
+  restEmpty : Bool
+  deriving DecidableEq, Repr, Inhabited
+
+def wrapStep (override : Bool) (a : TopAttr) (st : WStep) : Except WErr TopAttr :=
+  match a with
+  | .wrapper => .ok .wrapper                              -- hasattr: `.add(func, path)` on the FunctionWrapper
+  | .user => .error .attributeError                       -- hasattr: `.add` on something that is no FunctionWrapper
+  | .userNone => .error .attributeError                   -- hasattr: `None.add`
+  | .missing =>
+    if st.isStep && !st.restEmpty then .error .assertionError       -- assert not path[1:]
+    else if override then .ok .missing else .ok .wrapper            -- _checked_assignment(model, name, FunctionWrapper(f))
+
+/-- the wrapper steps of `add_model` in the code's order; the namespace maps top-level helper names -/
+def runWrap (override : Bool) : List (Name × TopAttr) → List WStep → Except WErr (List (Name × TopAttr))
+  | ns, [] => .ok ns
+  | ns, st :: r =>
+    match wrapStep override ((kget st.name ns).getD .missing) st with
+    | .ok a => runWrap override (kset st.name a ns) r
+    | .error e => .error e
+
 end Helpers
 end TM
